@@ -98,6 +98,10 @@ class ManifestLoader:
             # damaged or truncated compressed data
             raise ManifestSyntaxError(
                 f'{relpath}: invalid compressed data: {exc}')
+        except UnicodeDecodeError as exc:
+            # e.g. some binary file that happens to be named Manifest
+            raise ManifestSyntaxError(
+                f'{relpath}: not valid UTF-8: {exc}')
         except OSError as exc:
             # bz2 returns generic OSError without errno
             # so non-null errno probably means something
